@@ -3,6 +3,7 @@ package engine
 import (
 	"bytes"
 	"fmt"
+	"sort"
 	"strings"
 )
 
@@ -56,9 +57,12 @@ func dnStringKinds(raw []byte) string {
 			delete(kinds, k)
 		}
 	}
+	var rest []string
 	for k := range kinds {
-		out = append(out, k)
+		rest = append(rest, k)
 	}
+	sort.Strings(rest)
+	out = append(out, rest...)
 	return strings.Join(out, "+")
 }
 
